@@ -209,8 +209,25 @@ def _choice(n, locs, flag_value):
 
 
 def between_triples(ctx):
-    """returns {False: (op_lower, logical, op_upper), True: (...)} read from the BETWEEN arm of parse_cond,
-    plus the arm node; lower/upper = first/second parsed bound"""
+    """returns {False: (op_lower, logical, op_upper), True: (...)} of the BETWEEN desugaring of parse_cond, the node to report
+    at, the subjects of the two comparisons and the name of the NOT flag.  Read by evaluation of parse_cond on `x between a and
+    b` / `x not between a and b` (c03.eval_parse_cond: the operand level is a stand-in); from the shape of the BETWEEN arm only
+    where that is not possible"""
+    import interp as _interp
+    import c03 as _c03
+    V = _interp.V
+    try:
+        out, subj = {}, []
+        for nv in (False, True):
+            lex = [V("Lexem::RawString", ["x"])] + ([V("Lexem::Not")] if nv else []) + [V("Lexem::Operator", ["between"]), V("Lexem::RawString", ["a"]), V("Lexem::And"), V("Lexem::RawString", ["b"])]
+            g, idx = _c03.eval_parse_cond(ctx, lex)
+            if not (isinstance(g, tuple) and len(g) == 3 and all(isinstance(c, tuple) and len(c) == 3 for c in g[1:]) and g[1][2] == "a" and g[2][2] == "b" and idx == len(lex)):
+                raise _interp.Undecided("`x %sbetween a and b` is parsed as %r" % ("not " if nv else "", g))
+            out[nv] = (g[1][0], g[0], g[2][0])
+            subj += [g[1][1], g[2][1]]
+        return out, {"body": ctx.anchor_hir(PARSE_COND)}, subj[:2] if subj[:2] == subj[2:] else subj, "not"
+    except _interp.Undecided:
+        pass
     hir = ctx.anchor_hir(PARSE_COND)
     locs = Locals(hir)
     arm = None
